@@ -1,8 +1,8 @@
 (* C09 - the query part of URL.String(): Go's url.ParseQuery (as used by URL.Query(), errors
    ignored) and Zeno's encodeQuery (pkg/models/url.go).
    [encode_query_orig] is the code as found (it ranges over a Go map, so the iteration order is
-   an extra argument); [encode_query] is the code after fixes/C09-query-order.diff (parameter by
-   parameter, in source order). *)
+   an extra argument); [encode_query] is the code after /repo commit 8ac6930
+   (fixes/C09-query-order.diff: parameter by parameter, in source order). *)
 From Coq Require Import List Ascii String NArith Bool.
 From ZenoV Require Import Lib.Hex Url.Escape.
 Import ListNotations.
